@@ -2295,3 +2295,144 @@ func ruleImportRetryOverride(c *report.Ctx) {
 		c.OK(sk(w)+":no-override", "fin is used as reported by asyncImport", p.Pos(w.Pos()))
 	}
 }
+
+// ruleEngineFlagsPerInput (C03): the verification flags handed to the engine are computed for that input alone.
+func ruleEngineFlagsPerInput(c *report.Ctx) {
+	p := c.P
+	c.Rule("engine-flags-per-input", "the script flags passed to NewEngine in signWitnessTx do not depend on earlier inputs (no loop-carried value): an input whose previous output pre-dates the warm-up height must be checked without the flag a later-style input turned on", 1)
+	f := fn(c, pkgWallet, "WalletManager", "signWitnessTx")
+	newEng := p.Fn(pkgTxscript, "", "NewEngine")
+	if f == nil || newEng == nil {
+		return
+	}
+	for i, s := range calls(f, newEng) {
+		key := siteKey(f, "NewEngine-flags", i+1)
+		hdr := loopHeaderOf(s.Block())
+		for hdr != nil {
+			if o := outerLoopHeader(hdr); o != nil && o != hdr {
+				hdr = o
+				continue
+			}
+			break
+		}
+		if hdr == nil {
+			c.Fail(key, "anchor lost: NewEngine is no longer called inside the input loop", posOf(c, s))
+			continue
+		}
+		carried := false
+		var walk func(v ssa.Value, seen map[ssa.Value]bool)
+		walk = func(v ssa.Value, seen map[ssa.Value]bool) {
+			if seen[v] {
+				return
+			}
+			seen[v] = true
+			switch x := v.(type) {
+			case *ssa.Phi:
+				if x.Block() == hdr {
+					carried = true
+					return
+				}
+				for _, e := range x.Edges {
+					walk(e, seen)
+				}
+			case *ssa.BinOp:
+				walk(x.X, seen)
+				walk(x.Y, seen)
+			case *ssa.UnOp:
+				if al, ok := x.X.(*ssa.Alloc); ok {
+					// a cell declared outside the loop and updated inside it is loop-carried too
+					if !hdr.Dominates(al.Block()) {
+						for _, r := range *al.Referrers() {
+							if st, ok := r.(*ssa.Store); ok && hdr.Dominates(st.Block()) && st.Block() != al.Block() {
+								carried = true
+							}
+						}
+					}
+				}
+			}
+		}
+		walk(an.CallOf(s).Args[3], map[ssa.Value]bool{})
+		if carried {
+			c.Fail(key, "the flags given to the engine accumulate across the inputs of one transaction: after an input whose previous output is pending or post-warm-up, every later input is verified with ScriptMASSip2, so a legitimate withdrawal of a pre-warm-up binding output fails to sign although the passphrase is right", posOf(c, s))
+		} else {
+			c.OK(key, "flags computed from this input's previous output only", posOf(c, s))
+		}
+	}
+}
+
+// ruleTipFromTransaction (C17): the tip a query works with is read through the query's own transaction.
+func ruleTipFromTransaction(c *report.Ctx) {
+	p := c.P
+	c.Rule("tip-from-transaction", "SyncStore.SyncedTo / SyncedBlock return what fetchSyncedTo / fetchSyncedBlock read from the bucket of the transaction they were given — never a value remembered outside the database (a write transaction publishes nothing before it commits and takes nothing back when it rolls back)", 2)
+	for _, t := range []struct{ m, fetch string }{{"SyncedTo", "fetchSyncedTo"}, {"SyncedBlock", "fetchSyncedBlock"}} {
+		f := fn(c, pkgTxmgr, "SyncStore", t.m)
+		fetch := fn(c, pkgTxmgr, "", t.fetch)
+		if f == nil || fetch == nil {
+			continue
+		}
+		key := sk(f) + ":result-from:" + t.fetch
+		bad := ""
+		n := 0
+		for _, b := range f.Blocks {
+			r, ok := b.Instrs[len(b.Instrs)-1].(*ssa.Return)
+			if !ok || p.ClassifyReturn(r, nil) == an.RetError {
+				continue
+			}
+			v := an.RetOperand(r, 0)
+			if an.IsNilConst(v) {
+				continue
+			}
+			n++
+			okv := false
+			var walk func(v ssa.Value, depth int) bool
+			walk = func(v ssa.Value, depth int) bool {
+				if depth > 4 {
+					return false
+				}
+				switch x := v.(type) {
+				case *ssa.Extract:
+					if call, ok := x.Tuple.(*ssa.Call); ok && call.Call.StaticCallee() == fetch {
+						// and the bucket comes from the tx parameter
+						return strings.Contains(p.Desc(call.Call.Args[0]), "FetchBucket(param:")
+					}
+				case *ssa.Phi:
+					for _, e := range x.Edges {
+						if an.IsNilConst(e) {
+							continue
+						}
+						if !walk(e, depth+1) {
+							return false
+						}
+					}
+					return true
+				case *ssa.UnOp:
+					// named result cell
+					if al, ok := x.X.(*ssa.Alloc); ok {
+						all, any := true, false
+						for _, ref := range *al.Referrers() {
+							if st, ok := ref.(*ssa.Store); ok && st.Addr == ssa.Value(al) && !an.IsNilConst(st.Val) {
+								any = true
+								if !walk(st.Val, depth+1) {
+									all = false
+								}
+							}
+						}
+						return any && all
+					}
+				}
+				return false
+			}
+			okv = walk(v, 0)
+			if !okv {
+				bad = p.Desc(v)
+			}
+		}
+		if n == 0 {
+			c.Fail(key, "anchor lost: "+t.m+" has no success return with a value", p.Pos(f.Pos()))
+		} else if bad != "" {
+			c.Fail(key, t.m+" can answer with "+bad+" instead of what "+t.fetch+" reads through the caller's transaction: queries then combine a tip height published by an uncommitted (or rolled-back) block batch with the coins of the committed state, and report coins mature or confirmed too early", p.Pos(f.Pos()))
+		} else {
+			c.OK(key, "every success value is "+t.fetch+"(tx.FetchBucket(…))", p.Pos(f.Pos()))
+		}
+	}
+}
